@@ -667,6 +667,8 @@ class Curve(BaseCurve):
 
         """
         nodes = tuple(nodes)
+        if len(nodes) == 0:
+            return
         oldvector = tuple(self.knotvector)
         newvector = self.knotvector + nodes
         if newvector.degree != self.degree:
